@@ -1,6 +1,14 @@
 (* C20 — Diagnosis fail-safe reacts only to stable health changes and never
-   flaps.  Final statements only; proofs are in Proofs.v. *)
-From Coq Require Import List ZArith Bool.
+   flaps.  Final statements only; proofs are in Proofs.v.
+
+   Every theorem is about [run c init t0 script] for ALL settings [c] (four
+   unbounded integers, no well-formedness condition: N <= 1, periods <= 0 and a
+   negative cool-down included), ALL starting instants and ALL scripts: a script
+   gives, per check, the observation and the three slacks of the clock (see
+   Model.v).  [item_ok] (the slacks are non-negative = the clock does not run
+   backwards) is a hypothesis only of the statements that speak about the order
+   of instants. *)
+From Coq Require Import List ZArith Bool Lia.
 From Verif Require Import C20.Model C20.Proofs.
 Import ListNotations.
 Open Scope Z_scope.
@@ -29,19 +37,21 @@ Qed.
 Print Assumptions C20_stable_before_fire.
 
 (* After an 'unhealthy' reaction at instant t nothing is observed (hence
-   nothing fires) before t + cooldown. *)
+   nothing fires) before t + cooldown — for every cool-down setting (a negative
+   one is no cool-down: the sleep returns at once, and later checks are still
+   not earlier than t). *)
 Theorem C20_cooldown_silent : forall c t0 script pre e post,
-  0 <= cC c -> Forall (fun o => 0 <= snd o) script ->
+  Forall item_ok script ->
   run c init t0 script = pre ++ e :: post ->
   e_fire e = true -> e_obs e = false ->
-  Forall (fun e' => e_at e + cC c <= e_at e') post.
+  Forall (fun e' => e_at e + Z.max (cC c) 0 <= e_at e') post.
 Proof. intros. eapply cooldown_silent; eauto. Qed.
 Print Assumptions C20_cooldown_silent.
 
 (* A signal without a run of max(N,2) equal consecutive observations never
    triggers any reaction. *)
 Theorem C20_flap_never_fires : forall c t0 script,
-  ~ has_run (Z.max (cN c) 2) (map fst script) ->
+  ~ has_run (Z.max (cN c) 2) (map i_obs script) ->
   reactions (run c init t0 script) = [].
 Proof.
   intros c t0 script H.
@@ -50,9 +60,107 @@ Proof.
 Qed.
 Print Assumptions C20_flap_never_fires.
 
-(* Non-vacuity: a concrete script on which both reactions fire. *)
+(* The time reading of "flapping": a signal none of whose stretches of equal
+   consecutive observations spans the stable period never triggers any
+   reaction, however long the stretches are in number of checks. *)
+Theorem C20_brief_never_fires : forall c t0 script,
+  (forall pre1 f r e post,
+     run c init t0 script = pre1 ++ f :: r ++ e :: post ->
+     Forall (fun x => e_obs x = e_obs e) (f :: r) ->
+     e_at e - e_at f < cP c) ->
+  reactions (run c init t0 script) = [].
+Proof. intros c t0 script H. exact (brief_never_fires c script t0 H). Qed.
+Print Assumptions C20_brief_never_fires.
+
+(* The instants of the checks never decrease, and consecutive checks are at
+   least the check interval apart (measured from the previous check, hence
+   also from the end of the previous iteration). *)
+Theorem C20_checks_spaced : forall c t0 script,
+  Forall item_ok script ->
+  nondecreasing (map e_at (run c init t0 script)) /\
+  forall pre e e' post,
+    run c init t0 script = pre ++ e :: e' :: post -> e_at e + cI c <= e_at e'.
+Proof.
+  intros c t0 script H. split.
+  - exact (run_monotone c script init t0 H).
+  - intros pre e e' post Hr. exact (interval_respected c script init t0 H pre e e' post Hr).
+Qed.
+Print Assumptions C20_checks_spaced.
+
+(* ---- the statements of the first version of the model (scripts of
+   (observation, time inside the predicate), otherwise idle clock) are
+   instances ---- *)
+
+Theorem C20_alternate_pairs : forall c t0 script,
+  alternates_from true (map fst (reactions (run_pairs c init t0 script))).
+Proof. intros. apply C20_alternate. Qed.
+Print Assumptions C20_alternate_pairs.
+
+Theorem C20_stable_before_fire_pairs : forall c t0 script pre e post,
+  run_pairs c init t0 script = pre ++ e :: post -> e_fire e = true ->
+  exists pre1 r f,
+    pre = pre1 ++ f :: r /\
+    Forall (fun x => e_obs x = e_obs e) (f :: r) /\
+    Z.max (cN c) 2 <= Z.of_nat (length (f :: r)) + 1 /\
+    cP c <= e_at e - e_at f.
+Proof. intros c t0 script. apply C20_stable_before_fire. Qed.
+Print Assumptions C20_stable_before_fire_pairs.
+
+(* (the first version needed 0 <= cC c: its clock ran backwards otherwise) *)
+Theorem C20_cooldown_silent_pairs : forall c t0 script pre e post,
+  Forall (fun o => 0 <= snd o) script ->
+  run_pairs c init t0 script = pre ++ e :: post ->
+  e_fire e = true -> e_obs e = false ->
+  Forall (fun e' => e_at e + cC c <= e_at e') post.
+Proof.
+  intros c t0 script pre e post Hd Hr F Ho.
+  eapply Forall_impl;
+    [|exact (C20_cooldown_silent c t0 _ pre e post (of_pair_ok script Hd) Hr F Ho)].
+  cbn beta. intros a Ha. lia.
+Qed.
+Print Assumptions C20_cooldown_silent_pairs.
+
+Theorem C20_flap_never_fires_pairs : forall c t0 script,
+  ~ has_run (Z.max (cN c) 2) (map fst script) ->
+  reactions (run_pairs c init t0 script) = [].
+Proof.
+  intros c t0 script H. apply C20_flap_never_fires. rewrite of_pair_obs. exact H.
+Qed.
+Print Assumptions C20_flap_never_fires_pairs.
+
+(* ---- non-vacuity ---- *)
+
+(* a concrete script on which both reactions fire *)
 Example C20_fires_somewhere :
-  reactions (run {| cN := 2; cP := 10; cI := 5; cC := 7 |} init 100
+  reactions (run_pairs {| cN := 2; cP := 10; cI := 5; cC := 7 |} init 100
                [(false,0); (false,0); (false,0); (true,0); (true,0); (true,0)])
   = [(false, 110); (true, 132)].
+Proof. vm_compute. reflexivity. Qed.
+
+(* the same with a slow clock (scheduling slack 1, predicate 2, callback 3 on
+   every check): the hypotheses of the timed theorems are satisfiable and both
+   reactions still fire *)
+Definition slow_script : list item :=
+  [It false 1 2 3; It false 1 2 3; It false 1 2 3; It true 1 2 3; It true 1 2 3; It true 1 2 3].
+Example C20_fires_somewhere_slow :
+  Forall item_ok slow_script /\
+  reactions (run {| cN := 2; cP := 10; cI := 5; cC := 7 |} init 100 slow_script)
+  = [(false, 113); (true, 150)].
+Proof.
+  split; [|vm_compute; reflexivity].
+  repeat constructor; cbn; lia.
+Qed.
+
+(* a negative cool-down is no cool-down: the clock does not run backwards *)
+Example C20_negative_cooldown :
+  map e_at (run_pairs {| cN := 2; cP := 0; cI := 1; cC := -50 |} init 100
+              [(false,0); (false,0); (false,0)])
+  = [100; 101; 102].
+Proof. vm_compute. reflexivity. Qed.
+
+(* the hypothesis of C20_brief_never_fires is satisfiable by a script with long
+   runs: 5 equal observations 1 apart never span a stable period of 10 *)
+Example C20_brief_example :
+  reactions (run_pairs {| cN := 2; cP := 10; cI := 1; cC := 0 |} init 0
+               [(false,0); (false,0); (false,0); (false,0); (false,0); (true,0)]) = [].
 Proof. vm_compute. reflexivity. Qed.
